@@ -190,7 +190,10 @@ class StmtMixin:
                     s4 = self.set_seq_items(s3, cur, seq_concat(self.seq_items(s3, cur), *add)) if add else s3
                     return [Out("ok", s4)]
                 if isinstance(s.op, ast.Add) and isinstance(cur, VList) and isinstance(r, (VList, VSeq)):
-                    tb, _ = self.as_seq(s3, r)
+                    tb, kb_ = self.as_seq(s3, r)
+                    if elem_sort(kb_) != elem_sort(cur.elem):
+                        raise Unsupported(f"list += list with different element kinds ({cur.elem!r} vs {kb_!r}) at line "
+                                          f"{s.lineno}: a kind hint does not fit this code")
                     s4 = self.set_seq_items(s3, cur, seq_concat(self.seq_items(s3, cur), tb))
                     return [Out("ok", s4)]
                 return self.binop(s3, s.op, cur, r, lambda s4, v: self.assign(s4, s.target, v), s)
@@ -932,6 +935,17 @@ class StmtMixin:
                         outs += self.raise_(o.st.assume(Not(Eq(dom0, dom1))), "RuntimeError",
                                             f"dictionary changed during iteration (line {s.lineno})")
                         o = Out(o.kind, o.st.assume(Eq(dom0, dom1)), o.val)
+                if o.kind in ("ok", "cnt") and isinstance(it, (VList, VDeque)):
+                    # the model iterates over the sequence as it was at loop entry; CPython iterates by index over the LIVE
+                    # list.  The two agree only if the body leaves the iterated list alone: an obligation of every iteration
+                    t0_, t1_ = self.seq_items(a.st, it), self.seq_items(o.st, it)
+                    if t0_.s != t1_.s and getattr(ls, "assume_iter_stable", None):
+                        self.assumed_casts = getattr(self, "assumed_casts", set()) | {
+                            f"{self.cur_func_name}: ASSUMED that the loop body does not mutate the list it iterates over "
+                            f"({ls.assume_iter_stable})"}
+                        o = Out(o.kind, o.st.assume(Eq(t0_, t1_)), o.val)
+                    elif t0_.s != t1_.s:
+                        o = Out(o.kind, self.oblige(o.st, Eq(t0_, t1_), "iter", "iterated-list-not-mutated-by-the-loop-body"), o.val)
                 if o.kind in ("ok", "cnt"):
                     nd = seq_concat(done, seq_unit(x))
                     g2 = {"done": VSeq(nd, ek), f"done{ord_}": VSeq(nd, ek), "seq": VSeq(seq_t, ek),
